@@ -304,6 +304,7 @@ func (c *AsyncLogger) Append(e *Event) {
 // Write enqueues raw bytes into the buffer.
 // Behavior on full buffer depends on BufferFullPolicy.
 func (c *AsyncLogger) Write(b []byte) {
+	b = append([]byte(nil), b...) // the caller may reuse its buffer after Write returns
 	select {
 	case c.buf <- b:
 	default:
